@@ -178,7 +178,7 @@ def run_gcase(case, seed=0, replay_dir=None, known=None):
                     err = float(np.max(np.abs(fa - b) / (1.0 + np.abs(b)))) if b.size else 0.0
                     worst[j] = max(worst[j], err)
         need = 2.0 ** (vord + 1) / 3.0
-        ok = worst[1] < 1e-9 or (worst[0] / max(worst[1], 1e-300) >= need and worst[1] < 1e-2)
+        ok = worst[1] < 1e-9 or (worst[0] / max(worst[1], 1e-300) >= need and worst[1] < 0.2)  # the ratio is the criterion; the cap only rejects garbage
         res["validation"] = {"instances": case.n_validate, "err_at_s0": worst[0], "err_at_s0_half": worst[1], "required_ratio": need,
                              "note": "series truncated at s^%d vs real execution at s0=%s and s0/2" % (case.order, case.validate_s0)}
         if not ok:
